@@ -16,6 +16,21 @@ TRUSTED_BASE = [
 ASSUMPTIONS = ["theorems are about the model; scope: proportional units (offset scales are C09); table values themselves are C05"]
 
 
+def read_units(V, texts):
+    """What each unit text denotes: single words as the implementation reads them, the structure (* / ^n) read independently."""
+    wl = sorted({w for t in texts for w in unitlib.words_of(t)})
+    single = dict(zip(wl, unitlib.impl_units(wl)))
+    out = {}
+    for t in texts:
+        sn = unitlib.struct_names(V, t, single)
+        out[t] = None if sn in (None, "clash") else sn
+    return out
+
+
+def same_unit(a, b):
+    return sorted(map(list, a)) == sorted(map(list, b))
+
+
 def run(rng, tier, model_ok):
     V = unitlib.vocab()
     items = []          # (query, oracle)
@@ -31,7 +46,7 @@ def run(rng, tier, model_ok):
             v = pipeline.single_value(reply)
             if v is None:
                 return {"why": "commensurable conversion refused", "expected": "a number"}
-            if v[2] != nb or V.si(v[0], v[1], v[2]) != x * V.scale(na):
+            if not same_unit(v[2], nb) or V.si(v[0], v[1], v[2]) != x * V.scale(na):
                 return {"why": "conversion changed the quantity: SI %s, expected %s" % (V.si(v[0], v[1], v[2]), x * V.scale(na))}
             return None
         return o
@@ -49,8 +64,13 @@ def run(rng, tier, model_ok):
     prefix_words = [(e, letter + name, name) for (e, letter), v in combos[:k] for name in [rng.choice(V.names[v])]]
     n = 150 if tier == "quick" else 2500
     exprs = [V.unit_expr(rng) for _ in range(n)]
+    # a unit named more than once inside one expression, with explicit powers
+    for _ in range(n // 6):
+        w = V.word(rng, prefix_prob=0.3)
+        w2 = V.word(rng, prefix_prob=0)
+        exprs += [rng.choice(["%s*%s^2" % (w, w), "%s^2*%s^-1" % (w, w), "%s*%s/%s^3" % (w, w2, w), "%s^3/%s^2*%s" % (w, w, w2), "%s*%s*%s^2" % (w2, w, w)])]
     allt = unit_texts + [w for _, w, _ in prefix_words] + [nm for _, _, nm in prefix_words] + exprs
-    parsed = dict(zip(allt, unitlib.impl_units(allt)))
+    parsed = read_units(V, allt)
     # ---- phase 2: expansions into base units, parsed in one batch
     exp1 = {}
     for t in unit_texts + exprs:
@@ -60,7 +80,7 @@ def run(rng, tier, model_ok):
             if e1 and e2:
                 exp1[t] = (e1, e2)
     ex_texts = sorted({e for pair in exp1.values() for e in pair})
-    parsed.update(dict(zip(ex_texts, unitlib.impl_units(ex_texts))))
+    parsed.update(read_units(V, ex_texts))
     # every unit as source and as target, against its expansion into base units
     for name in unit_texts:
         if name not in exp1:
@@ -82,7 +102,7 @@ def run(rng, tier, model_ok):
             for k in (2, 3, -1, -2, -3):
                 pw_texts[(name, k)] = ("%s^%d" % (name, k), "*".join("%s^%d" % (w, q * k) for w, q in base_words))
     more = sorted({t for pair in pw_texts.values() for t in pair})
-    parsed.update(dict(zip(more, unitlib.impl_units(more))))
+    parsed.update(read_units(V, more))
     for (name, k), (a, b) in sorted(pw_texts.items()):
         na, nb = parsed.get(a), parsed.get(b)
         if not na or not nb:
@@ -103,7 +123,7 @@ def run(rng, tier, model_ok):
 
         def o(reply, e=e, nb=nb):
             v = pipeline.single_value(reply)
-            if v is None or Fraction(v[0], v[1]) != Fraction(10) ** e or v[2] != nb:
+            if v is None or Fraction(v[0], v[1]) != Fraction(10) ** e or not same_unit(v[2], nb):
                 return {"why": "prefix is not exactly 10^%d" % e, "expected": str(Fraction(10) ** e)}
             return None
         add("1 %s to %s" % (word, name), o)
@@ -147,7 +167,7 @@ def run(rng, tier, model_ok):
             continue
         if kind == "round_trip":
             x, na = data
-            if Fraction(vals[0][0], vals[0][1]) != x or vals[0][2] != na:
+            if Fraction(vals[0][0], vals[0][1]) != x or not same_unit(vals[0][2], na):
                 failures.append({"input": qs[0], "why": "there and back gives %s/%s, not the original %s" % (vals[0][0], vals[0][1], x)})
         elif kind == "via":
             if vals[0] != vals[1]:
